@@ -26,7 +26,7 @@ class World:
     probe_min_runs = 600
     required_probes = ["jit_equals_all", "recalculate_after_dense_change", "next_past_grid", "refused_mode_misuse",
                        "apply_single_time", "apply_time_axis", "operator_form_tensor", "secular_tensor",
-                       "redfield_tensor_rwa", "semigroup_checked", "dense_gt_1", "save_mode_jit", "at_checked", "apply_inside_context",
+                       "redfield_tensor_rwa", "semigroup_checked", "dense_gt_1", "save_mode_jit", "at_checked", "apply_inside_context", "jit_step_inside_context",
                        "calculate_twice"]
     required_faults = ["mode_misuse"]
     components = {
@@ -61,7 +61,7 @@ class World:
             if k == "set_dense":
                 ops.append({"op": "set_dense", "n": rng.choice([1, 2, 3, 5, 10]), "which": rng.choice(["all", "jit", "both"])})
             elif k == "next":
-                ops.append({"op": "next", "times": rng.choice([1, 1, 2, 3, 7])})
+                ops.append({"op": "next", "times": rng.choice([1, 1, 2, 3, 7]), "ctx": rng.random() < 0.25})
             elif k == "at":
                 ops.append({"op": "at", "k": rng.randrange(64), "which": rng.choice(["all", "jit"])})
             elif k == "apply":
@@ -226,7 +226,7 @@ class Runner:
                 st["all_calc_dense"] = st["all_dense"]
                 st["ncalc"] += 1
                 data = numpy.array(Uall.data)
-                check(numpy.array_equal(data[0], I), "identity-at-zero", "op %d: U(0) after calculate" % i)
+                check(close(data[0], I, rtol=0, atol=1e-12), "identity-at-zero", "op %d: U(0) after calculate" % i)
                 for k in range(Nt):
                     self.check_U(data[k], k, st["all_calc_dense"], "op %d: 'all' U(t_%d)" % (i, k))
                 self.ctx.ev(i, kind, st["all_dense"], fingerprint(data))
@@ -248,7 +248,13 @@ class Runner:
                         self.ctx.probe("next_past_grid")
                         break
                     try:
-                        Ujit.calculate_next(save=p["jit_save"])
+                        if op.get("ctx") and not getattr(self.ham, "has_rwa", False):
+                            # the step is requested inside the eigenbasis of the Hamiltonian; read outside afterwards
+                            with qr.eigenbasis_of(self.ham):
+                                Ujit.calculate_next(save=p["jit_save"])
+                            self.ctx.probe("jit_step_inside_context")
+                        else:
+                            Ujit.calculate_next(save=p["jit_save"])
                     except Exception as e:
                         raise Violation("calculate-next-raises", "op %d: step %d: %s: %s" % (i, k, type(e).__name__, e))
                     st["jit_now"] = k
@@ -258,7 +264,7 @@ class Runner:
                     if p["jit_save"]:
                         self.ctx.probe("save_mode_jit")
                         U = numpy.array(Ujit.data[k])
-                        check(numpy.array_equal(numpy.array(Ujit.data[0]), I), "identity-at-zero", "op %d: saved U(0)" % i)
+                        check(close(numpy.array(Ujit.data[0]), I, rtol=0, atol=1e-12), "identity-at-zero", "op %d: saved U(0)" % i)
                     else:
                         U = numpy.array(Ujit.data)
                     self.check_U(U, k, st["jit_dense"], "op %d: 'jit' after %d steps" % (i, k))
